@@ -13,7 +13,7 @@ theorem run_start_cases {f start : Nat} {end_ : Option Nat} {e : Event} {rest : 
     (h : run (f + 1) start end_ (.ev e :: rest) mts = some r) :
     (∃ mts1 p, scan e start end_ 0 mts = (mts1, none) ∧ run f start end_ rest mts1 = some p ∧ r = (p.1, e :: p.2)) ∨
     (∃ mts1 idx t inner tail rest' mts3 innerOut mts4 out p,
-      scan e start end_ 0 mts = (mts1, some idx) ∧ mts1[idx]? = some t ∧ t.buffered = true ∧
+      scan e start end_ 0 mts = (mts1, some idx) ∧ mts1[idx]? = some t ∧
       strip 1 rest = some (inner, tail, rest') ∧
       run f start (some (preEnd t idx)) inner (fired t idx mts1) = some (mts3, innerOut) ∧
       run f (idx + 1) end_ (evItems (instantiate t.body (e :: innerOut ++ [tail]))) mts3 = some (mts4, out) ∧
@@ -33,30 +33,27 @@ theorem run_start_cases {f start : Nat} {end_ : Option Nat} {e : Event} {rest : 
     | none => simp [ht] at h
     | some t =>
       simp only [ht] at h
-      by_cases hb : t.buffered = true
-      · simp only [hb, Bool.not_true, Bool.false_eq_true, ↓reduceIte] at h
-        cases hst : strip 1 rest with
-        | none => simp [hst] at h
-        | some q =>
-          obtain ⟨inner, tail, rest'⟩ := q
-          simp only [hst] at h
-          cases h3 : run f start (some (preEnd t idx)) inner (fired t idx mts1) with
-          | none => rw [h3] at h; simp at h
-          | some q3 =>
-            obtain ⟨mts3, innerOut⟩ := q3
-            rw [h3] at h; simp only at h
-            cases h4 : run f (idx + 1) end_ (evItems (instantiate t.body (e :: innerOut ++ [tail]))) mts3 with
-            | none => rw [h4] at h; simp at h
-            | some q4 =>
-              obtain ⟨mts4, out⟩ := q4
-              rw [h4] at h; simp only at h
-              cases h5 : run f start end_ rest' (updRange tail start (idx + 1) 0 mts4) with
-              | none => rw [h5] at h; simp at h
-              | some p =>
-                rw [h5] at h; simp only [Option.map_some, Option.some.injEq] at h
-                exact Or.inr ⟨mts1, idx, t, inner, tail, rest', mts3, innerOut, mts4, out, p, rfl, ht, hb, rfl,
-                  h3, h4, h5, h.symm⟩
-      · simp [hb] at h
+      cases hst : strip 1 rest with
+      | none => simp [hst] at h
+      | some q =>
+        obtain ⟨inner, tail, rest'⟩ := q
+        simp only [hst] at h
+        cases h3 : run f start (some (preEnd t idx)) inner (fired t idx mts1) with
+        | none => rw [h3] at h; simp at h
+        | some q3 =>
+          obtain ⟨mts3, innerOut⟩ := q3
+          rw [h3] at h; simp only at h
+          cases h4 : run f (idx + 1) end_ (evItems (instantiate t.body (e :: innerOut ++ [tail]))) mts3 with
+          | none => rw [h4] at h; simp at h
+          | some q4 =>
+            obtain ⟨mts4, out⟩ := q4
+            rw [h4] at h; simp only at h
+            cases h5 : run f start end_ rest' (updRange tail start (idx + 1) 0 mts4) with
+            | none => rw [h5] at h; simp at h
+            | some p =>
+              rw [h5] at h; simp only [Option.map_some, Option.some.injEq] at h
+              exact Or.inr ⟨mts1, idx, t, inner, tail, rest', mts3, innerOut, mts4, out, p, rfl, ht, rfl,
+                h3, h4, h5, h.symm⟩
 
 theorem getElem?_mem_of {α} {l : List α} {i : Nat} {a : α} (h : l[i]? = some a) : a ∈ l :=
   List.mem_of_getElem? h
@@ -86,7 +83,7 @@ theorem run_forall {P : MT σ → Prop} (hP : Static P) : ∀ (f start : Nat) (e
         have hi' : ∀ t, Item.reg t ∈ rest → P t := fun x hx => hi x (by simp [hx])
         by_cases hS : isStart e = true
         · rcases run_start_cases hS h with ⟨mts1, p, hsc, hp, rfl⟩ |
-            ⟨mts1, idx, t, inner, tail, rest', mts3, innerOut, mts4, out, p, hsc, ht, hb, hst, h3, h4, h5, rfl⟩
+            ⟨mts1, idx, t, inner, tail, rest', mts3, innerOut, mts4, out, p, hsc, ht, hst, h3, h4, h5, rfl⟩
           · have h1 : ∀ t ∈ mts1, P t := by
               have := scan_forall hP e start end_ 0 mts hm; rw [hsc] at this; exact this
             exact ih start end_ rest mts1 p h1 hi' hp
@@ -141,7 +138,7 @@ theorem run_track : ∀ (f start : Nat) (end_ : Option Nat) (items : List (Item 
         have hi' : ∀ t, Item.reg t ∈ rest → BodyOK t.body := fun x hx => hi x (by simp [hx])
         by_cases hS : isStart e = true
         · rcases run_start_cases hS h with ⟨mts1, p, hsc, hp, rfl⟩ |
-            ⟨mts1, idx, t, inner, tail, rest', mts3, innerOut, mts4, out, p, hsc, ht, hb, hst, h3, h4, h5, rfl⟩
+            ⟨mts1, idx, t, inner, tail, rest', mts3, innerOut, mts4, out, p, hsc, ht, hst, h3, h4, h5, rfl⟩
           · have h1 : ∀ t ∈ mts1, BodyOK t.body := by
               have := scan_forall hPs e start end_ 0 mts hm; rw [hsc] at this; exact this
             cases e with
